@@ -398,6 +398,18 @@ func runC15_3(c *core.Ctx) {
 	if f == nil || !c.Need("nextIndex", next) || !c.Need("eventLoops", loops) {
 		return
 	}
+	// the cursor field itself, or a local whose only definition is a plain read of it
+	cursorLocal := func(e ast.Expr) *types.Var {
+		v, ok := flow.ObjOf(f.Info, e).(*types.Var)
+		if !ok || v.IsField() {
+			return nil
+		}
+		if def := singleDef(f, v); def != nil && flow.FieldOf(f.Info, def) == next {
+			return v
+		}
+		return nil
+	}
+	isCursor := func(e ast.Expr) bool { return flow.FieldOf(f.Info, e) == next || cursorLocal(e) != nil }
 	isInc := func(n ast.Node) bool {
 		switch y := n.(type) {
 		case *ast.IncDecStmt:
@@ -407,6 +419,19 @@ func runC15_3(c *core.Ctx) {
 				if y.Tok == token.ADD_ASSIGN {
 					if cv := flow.ConstOf(f.Info, y.Rhs[0]); cv != nil && cv.ExactString() == "1" {
 						return true
+					}
+				}
+				// nextIndex = nextIndex + 1, or = turn + 1 with `turn := lb.nextIndex` (the only definition of turn):
+				// with exactly one advance per path (checked below) turn still holds the value at entry here
+				if y.Tok == token.ASSIGN && len(y.Rhs) == 1 {
+					if be, ok := ast.Unparen(y.Rhs[0]).(*ast.BinaryExpr); ok && be.Op == token.ADD {
+						x, k := be.X, be.Y
+						if flow.ConstOf(f.Info, x) != nil {
+							x, k = k, x
+						}
+						if cv := flow.ConstOf(f.Info, k); cv != nil && cv.ExactString() == "1" && isCursor(x) {
+							return true
+						}
 					}
 				}
 				return false
@@ -446,19 +471,34 @@ func runC15_3(c *core.Ctx) {
 	}
 	sol := f.Graph().Solve(p)
 	found := false
+	// a local copy of the cursor holds the value the field had where the copy was taken
+	copiedAfterInc := map[*types.Var]bool{}
+	sol.Walk(func(b *flow.Block, i int, n ast.Node, before uint64) {
+		if as, ok := n.(*ast.AssignStmt); ok {
+			for _, l := range as.Lhs {
+				if v := cursorLocal(l); v != nil && before&fInc != 0 {
+					copiedAfterInc[v] = true
+				}
+			}
+		}
+	})
 	sol.Walk(func(b *flow.Block, i int, n ast.Node, before uint64) {
 		ast.Inspect(n, func(x ast.Node) bool {
-			if ie, ok := x.(*ast.IndexExpr); ok && flow.FieldOf(f.Info, ie.X) == loops {
-				uses := false
+			if ie, ok := x.(*ast.IndexExpr); ok && flow.FieldOf(f.Info, seeThrough(f, ie.X)) == loops {
+				uses, advanced := false, before&fInc != 0
 				ast.Inspect(ie.Index, func(y ast.Node) bool {
-					if e, ok := y.(ast.Expr); ok && flow.FieldOf(f.Info, e) == next {
-						uses = true
+					if e, ok := y.(ast.Expr); ok {
+						if flow.FieldOf(f.Info, e) == next {
+							uses = true
+						} else if v := cursorLocal(e); v != nil {
+							uses, advanced = true, copiedAfterInc[v]
+						}
 					}
 					return true
 				})
 				if uses {
 					found = true
-					c.Check(before&fInc == 0, f.Name, "index uses the pre-increment cursor", ie.Pos(), "first call yields loop 0", "the cursor is advanced before it is used as the index: the cycle starts at loop 1 and the first loop is served last")
+					c.Check(!advanced, f.Name, "index uses the pre-increment cursor", ie.Pos(), "first call yields loop 0", "the cursor is advanced before it is used as the index: the cycle starts at loop 1 and the first loop is served last")
 				}
 			}
 			return true
